@@ -11,7 +11,7 @@ checks, na = [], []
 for p in props:
     pid = p["id"]
     c = cfg["properties"].get(pid)
-    if not c or c.get("unclaimed"):
+    if not c or not c.get("claimed"):
         na.append({"property_id": pid, "reason": (c or {}).get("unclaimed", "check not built yet (work in progress; see DESIGN.md section 3)")})
         continue
     checks.append({
